@@ -17,14 +17,28 @@ import os
 import re
 import shutil
 import subprocess
+import sys
 import tempfile
 import time
 
+sys.path.insert(0, os.path.dirname(os.path.dirname(os.path.abspath(__file__))))
 import vlib
 import simrun
 import gen_c12_lifecycle
 
+# local work-around: scratch build trees of alternative repositories (`VERIF_REPO=...`) are named
+# .build/alt_*; other jobs remove `.build/alt_*` while a C12 run (normal + sanitizer build of the
+# whole binary) is still using its trees, so C12 keeps them under another name (as C09 does)
+if vlib.REPO != "/repo" and os.path.basename(vlib.BUILD).startswith("alt_"):
+    vlib.BUILD = os.path.join(vlib.VERIF, ".build", "c12" + os.path.basename(vlib.BUILD))
+    vlib.BIN = os.path.join(vlib.BUILD, "bin")
+    vlib.FULL = os.path.join(vlib.BUILD, "full")
+    gen_c12_lifecycle.OUT_HPP_DIR = os.path.join(vlib.BUILD, "gen")
+    gen_c12_lifecycle.OUT_HPP = os.path.join(gen_c12_lifecycle.OUT_HPP_DIR, "c12_gen.hpp")
+
 KEY_SOURCE_OUTSIDE = "run:source-outside-box-out-of-bounds-write"
+# unequal numbers of cells per subgrid, every ordering (index bugs hide behind nx = ny = nz)
+ORDERINGS = [(2, 4, 3), (3, 2, 4), (4, 3, 2), (2, 3, 4), (4, 2, 3), (3, 4, 2)]
 
 
 # =========================================================================== correspondence
@@ -415,12 +429,14 @@ def rhd_param(c):
     t += "  total time: %g s\n  snapshot time: %g s\n" % (c.get("total_time", 0.004), c.get("snaptime", 0.002))
     t += "  do radiation: %s\n" % b(c.get("radiation", False))
     if c.get("radiation"):
-        t += "  number of iterations: 2\n  number of photons: 500\n  radiation time: %g s\n  source copy level: %d\n" % (c.get("radtime", 0.002), c.get("copy_level", 1))
+        t += "  number of iterations: %d\n  number of photons: %d\n  radiation time: %g s\n  source copy level: %d\n" % (
+            c.get("iterations", 2), c.get("photons", 500), c.get("radtime", 0.002), c.get("copy_level", 1))
     for k, name in (("diffuse", "diffuse field"), ("gravity", "external gravity"), ("mask", "use mask"), ("turbulence", "turbulent forcing"),
                     ("cooling", "do radiative cooling"), ("feedback", "do stellar feedback")):
         if c.get(k) is not None:
             t += "  %s: %s\n" % (name, b(c[k]))
-    t += "  number of buffers: 4000\n  queue size per thread: 5000\n  shared queue size: 5000\n  number of tasks: 30000\n"
+    t += "  number of buffers: %d\n  queue size per thread: %d\n  shared queue size: %d\n  number of tasks: %d\n" % (
+        c.get("nbuf", 4000), c.get("queue", 5000), c.get("queue", 5000), c.get("ntasks", 30000))
     t += "DensityGridWriter:\n  type: Gadget\n  prefix: snap\n  padding: 3\n"
     t += "Hydro:\n  polytropic index: 1.6666666667\n"
     t += "RestartManager:\n  output interval: %s\n  maximum number of backups: %d\n" % (c.get("restart_interval", "100000. s"), c.get("backups", 1))
@@ -441,6 +457,13 @@ def rhd_param(c):
     return t
 
 
+def tbi_cells(c):
+    lay = c.get("layout", (2, 2, 2))
+    if c.get("cells"):
+        return tuple(lay[i] * c["cells"][i] for i in range(3))
+    return (8, 8, 8)
+
+
 def tbi_param(c):
     """parameter file of one task-based ionization configuration"""
     t = """SimulationBox:
@@ -448,7 +471,7 @@ def tbi_param(c):
   sides: [1. m, 1. m, 1. m]
   periodicity: [false, false, false]
 DensityGrid:
-  number of cells: [8, 8, 8]
+  number of cells: [%d, %d, %d]
 DensitySubGridCreator:
   number of subgrids: [%d, %d, %d]
 DensityFunction:
@@ -463,14 +486,15 @@ PhotonSourceSpectrum:
 DensityGridWriter:
   type: AsciiFile
   prefix: snap
-""" % (tuple(c.get("layout", (2, 2, 2))) + (b(c.get("temperature", False)),))
+""" % (tbi_cells(c) + tuple(c.get("layout", (2, 2, 2))) + (b(c.get("temperature", False)),))
     if c.get("source", "inside") == "inside":
         t += "PhotonSourceDistribution:\n  type: SingleStar\n  position: [0.55 m, 0.55 m, 0.55 m]\n  luminosity: 1.e40 s^-1\n"
     else:
         t += "PhotonSourceDistribution:\n  type: None\n"
     if c.get("continuous"):
         t += "ContinuousPhotonSource:\n  type: Isotropic\nContinuousPhotonSourceSpectrum:\n  type: Monochromatic\n  frequency: 13.6 eV\n  total flux: 1.e10 m^-2 s^-1\n"
-    t += "TaskBasedIonizationSimulation:\n  number of iterations: 2\n  number of photons: 1000\n  number of buffers: 20000\n  queue size per thread: 5000\n  shared queue size: 5000\n  number of tasks: 20000\n  source copy level: %d\n" % c.get("copy_level", 2)
+    t += "TaskBasedIonizationSimulation:\n  number of iterations: %d\n  number of photons: %d\n  number of buffers: %d\n  queue size per thread: %d\n  shared queue size: %d\n  number of tasks: %d\n  source copy level: %d\n" % (
+        c.get("iterations", 2), c.get("photons", 1000), c.get("nbuf", 20000), c.get("queue", 5000), c.get("queue", 5000), c.get("ntasks", 20000), c.get("copy_level", 2))
     if c.get("diffuse"):
         t += "  diffuse field: true\nDiffuseReemissionHandler:\n  type: Physical\n"
     if c.get("trackers"):
@@ -481,71 +505,135 @@ DensityGridWriter:
     return t
 
 
-def run_binary(binary, param, args, threads, aux=None, timeout=240, env=None, keepdir=None):
+def run_binary(binary, param, args, threads, aux=None, timeout=60, env=None, keepdir=None, wrapper=None):
     d = keepdir or tempfile.mkdtemp(prefix="verif_c12_")
     for name, text in (aux or {}).items():
         with open(os.path.join(d, name), "w") as f:
             f.write(text)
+    if wrapper:
+        # e.g. valgrind: a tiny script that execs `wrapper... binary "$@"`
+        sh = os.path.join(d, "wrapped.sh")
+        with open(sh, "w") as f:
+            f.write("#!/bin/sh\nexec %s %s \"$@\"\n" % (" ".join(wrapper), binary))
+        os.chmod(sh, 0o755)
+        binary = sh
     res = simrun.run_sim(binary, param, list(args) + ["--dirty"], threads=threads, timeout=timeout, trace=False, env=env, workdir=d)
     res["files"] = sorted(os.listdir(d))
     return res, d
 
 
+def live_expect(c):
+    expect = [r"snap\d+\.hdf5"]
+    if c.get("live"):
+        for k, pat in (("live_sd", "surface_density_"), ("live_isd", "ionized_surface_density_"), ("live_dpdf", "density_PDF_"), ("live_vpdf", "velocity_PDF_")):
+            if c.get(k, k != "live_isd"):
+                expect.append(pat + r"\d+\.txt")
+    return expect
+
+
+LIVE_ALL = dict(live=True, live_sd=True, live_isd=True, live_dpdf=True, live_vpdf=True)
+# capacities just above what a step of the tiny problems needs (calibrated: an 8-subgrid radiation
+# step needs ~250 task slots at once, the hydro step ~160 queue entries): the pools (tasks, photon
+# buffers) wrap around and are re-used many times within one step
+SMALL = dict(ntasks=400, nbuf=60, queue=300)
+
+
 def rhd_configs(ctx):
-    """(name, config, args, threads) of the task-based RHD runs"""
+    """(name, config, threads, in-quick-sanitizer-subset) of the task-based RHD runs.  Every named
+    configuration gets unequal numbers of cells per subgrid; over the list every ordering occurs."""
     cs = []
     base = dict(layout=(2, 2, 1), per=(False, False, False))
-    cs.append(("rhd-plain", dict(base), 1))
-    cs.append(("rhd-live-default", dict(base, live=True), 2))
-    cs.append(("rhd-live-off", dict(base, live=False), 2))
-    cs.append(("rhd-live-all", dict(base, live=True, live_sd=True, live_isd=True, live_dpdf=True, live_vpdf=True), 3))
-    cs.append(("rhd-live-none-of-four", dict(base, live=True, live_sd=False, live_isd=False, live_dpdf=False, live_vpdf=False), 1))
-    cs.append(("rhd-mask", dict(base, mask=True), 2))
-    cs.append(("rhd-turbulence", dict(base, layout=(2, 2, 2), per=(True, True, True), turbulence=True), 4))
-    cs.append(("rhd-gravity", dict(base, gravity=True), 1))
-    cs.append(("rhd-cooling", dict(base, cooling=True), 2))
-    cs.append(("rhd-radiation", dict(base, radiation=True, layout=(2, 2, 2)), 2))
-    cs.append(("rhd-radiation-diffuse-live", dict(base, radiation=True, diffuse=True, live=True, live_isd=True, layout=(2, 1, 2)), 3))
-    cs.append(("rhd-radiation-mask-turbulence", dict(base, radiation=True, mask=True, turbulence=True, layout=(2, 2, 2)), 4))
-    cs.append(("rhd-one-subgrid", dict(base, layout=(1, 1, 1), live=True), 1))
+    named = [
+        ("rhd-plain", dict(base), 1),
+        ("rhd-live-default", dict(base, live=True), 2),
+        ("rhd-live-off", dict(base, live=False), 2),
+        ("rhd-live-all", dict(base, **LIVE_ALL), 3),
+        ("rhd-live-none-of-four", dict(base, live=True, live_sd=False, live_isd=False, live_dpdf=False, live_vpdf=False), 1),
+        ("rhd-mask", dict(base, mask=True), 2),
+        ("rhd-turbulence", dict(base, layout=(2, 2, 2), per=(True, True, True), turbulence=True), 4),
+        ("rhd-gravity", dict(base, gravity=True), 1),
+        ("rhd-cooling", dict(base, cooling=True), 2),
+        ("rhd-radiation", dict(base, radiation=True, layout=(2, 2, 2)), 2),
+        ("rhd-radiation-diffuse-live", dict(base, radiation=True, diffuse=True, live=True, live_isd=True, layout=(2, 1, 2)), 3),
+        ("rhd-radiation-mask-turbulence", dict(base, radiation=True, mask=True, turbulence=True, layout=(2, 2, 2)), 4),
+        ("rhd-one-subgrid", dict(base, layout=(1, 1, 1), live=True), 1),
+    ]
+    for i, (name, c, th) in enumerate(named):
+        c["cells"] = ORDERINGS[i % 6]
+        cs.append((name, c, th, False))
+    # stress: every ordering of unequal cells per subgrid with all live outputs on, the other
+    # optional components rotating, radiation with small pools in several steps
+    rot = [dict(radiation=True, **SMALL), dict(mask=True, turbulence=True, per=(True, True, True)), dict(radiation=True, diffuse=True, photons=3000, iterations=3, **SMALL),
+           dict(gravity=True, cooling=True), dict(radiation=True, mask=True, photons=2000, **SMALL), dict(turbulence=True, per=(True, False, True))]
+    for i, cells in enumerate(ORDERINGS):
+        c = dict(layout=(2, 2, 2) if i % 2 == 0 else (2, 1, 2), cells=cells, total_time=0.003, radtime=0.001, snaptime=0.0015, **LIVE_ALL)
+        c.update(rot[i])
+        cs.append(("rhd-stress-cells-%dx%dx%d" % cells, c, 1 + i % 4, True))
+    # the pools wrap around: many photons, three iterations, several radiation steps, few task slots
+    cs.append(("rhd-stress-small-pools", dict(layout=(2, 2, 2), cells=(4, 4, 4), radiation=True, photons=20000, iterations=3, total_time=0.002, radtime=0.0005,
+                                              snaptime=0.001, ntasks=1000, nbuf=300, queue=400, density="1.e19 m^-3", live=True), 2, True))
+    cs.append(("rhd-stress-small-pools-diffuse", dict(layout=(2, 2, 1), cells=(4, 2, 6), radiation=True, diffuse=True, photons=8000, iterations=2, total_time=0.002, radtime=0.0005,
+                                                      snaptime=0.001, ntasks=500, nbuf=100, queue=300, density="1.e20 m^-3", **LIVE_ALL), 4, True))
+    if ctx.thorough:
+        # every optional component with every ordering of unequal cells per subgrid
+        comps = [("live", dict(LIVE_ALL)), ("mask", dict(mask=True, live=True)), ("turbulence", dict(turbulence=True, per=(True, True, True))), ("gravity", dict(gravity=True)),
+                 ("cooling", dict(cooling=True)), ("radiation", dict(radiation=True, live=True, live_isd=True, **SMALL)), ("radiation-diffuse", dict(radiation=True, diffuse=True, **SMALL))]
+        for cname, extra in comps:
+            for j, cells in enumerate(ORDERINGS):
+                c = dict(layout=[(2, 2, 1), (1, 2, 2), (2, 1, 2)][j % 3], cells=cells, total_time=0.003, radtime=0.001)
+                c.update(extra)
+                cs.append(("rhd-%s-cells-%dx%dx%d" % ((cname,) + cells), c, 1 + (j + len(cname)) % 4, False))
     n_extra = ctx.budget(3, 14)
     for i in range(n_extra):
-        c = dict(layout=tuple(ctx.rng.choice([1, 2, 3]) for _ in range(3)), per=tuple(ctx.rng.choice([False, True]) for _ in range(3)))
+        c = dict(layout=tuple(ctx.rng.choice([1, 2, 3]) for _ in range(3)), per=tuple(ctx.rng.choice([False, True]) for _ in range(3)),
+                 cells=tuple(ctx.rng.choice([2, 3, 4]) for _ in range(3)))
         for k in ("mask", "turbulence", "gravity", "cooling", "radiation"):
             c[k] = ctx.rng.random() < 0.4
         if c["radiation"]:
             # photon packets in a periodic box of negligible optical depth travel for ever
             # (physics, not a defect): radiation only in boxes with open walls
             c["per"] = (False, False, False)
+            if ctx.rng.random() < 0.5:
+                c.update(SMALL)
+                c["photons"] = ctx.rng.choice([500, 3000])
         c["diffuse"] = c["radiation"] and ctx.rng.random() < 0.5
         if ctx.rng.random() < 0.7:
             c["live"] = ctx.rng.random() < 0.7
             for k in ("live_sd", "live_isd", "live_dpdf", "live_vpdf"):
                 if ctx.rng.random() < 0.6:
                     c[k] = ctx.rng.random() < 0.5
-        # a periodic axis with fewer than 3 subgrids is C07's subject; keep the layouts it proved fine
-        cs.append(("rhd-random-%d" % i, c, ctx.rng.choice([1, 2, 3, 4])))
+        cs.append(("rhd-random-%d" % i, c, ctx.rng.choice([1, 2, 3, 4]), False))
     return cs
 
 
 def tbi_configs(ctx):
+    """(name, config, tracker types, threads, in-quick-sanitizer-subset)"""
     cs = []
-    cs.append(("tbi-plain", dict(), None, 1))
-    cs.append(("tbi-diffuse", dict(diffuse=True), None, 2))
-    cs.append(("tbi-temperature", dict(temperature=True), None, 3))
-    cs.append(("tbi-continuous", dict(continuous=True), None, 2))
-    cs.append(("tbi-only-continuous", dict(continuous=True, source="none"), None, 1))
-    cs.append(("tbi-trackers", dict(trackers=True), "SBA", 2))
-    cs.append(("tbi-trackers-same-cell", dict(trackers=True, same_cell=True), "SSA", 3))
-    cs.append(("tbi-trackers-weighted", dict(trackers=True, diffuse=True), "WSW", 4))
-    cs.append(("tbi-trackers-weighted-in-copied-subgrid", dict(trackers=True, copy_level=3, tracker_x=0.6), "W", 2))
+    cs.append(("tbi-plain", dict(cells=(4, 2, 3)), None, 1, False))
+    cs.append(("tbi-diffuse", dict(diffuse=True, cells=(2, 3, 4)), None, 2, False))
+    cs.append(("tbi-temperature", dict(temperature=True, cells=(3, 4, 2)), None, 3, False))
+    cs.append(("tbi-continuous", dict(continuous=True, cells=(4, 3, 2)), None, 2, False))
+    cs.append(("tbi-only-continuous", dict(continuous=True, source="none", cells=(2, 4, 3)), None, 1, False))
+    cs.append(("tbi-trackers", dict(trackers=True, cells=(3, 2, 4)), "SBA", 2, False))
+    cs.append(("tbi-trackers-same-cell", dict(trackers=True, same_cell=True), "SSA", 3, False))
+    cs.append(("tbi-trackers-weighted", dict(trackers=True, diffuse=True), "WSW", 4, False))
+    cs.append(("tbi-trackers-weighted-in-copied-subgrid", dict(trackers=True, copy_level=3, tracker_x=0.6), "W", 2, False))
+    # small pools: buffers and tasks are re-used many times within one iteration
+    cs.append(("tbi-stress-small-pools", dict(diffuse=True, trackers=True, cells=(2, 4, 3), photons=20000, iterations=3, ntasks=300, nbuf=150, queue=300, copy_level=1), "SW", 3, True))
+    cs.append(("tbi-stress-small-pools-continuous", dict(continuous=True, temperature=True, cells=(4, 2, 3), layout=(2, 2, 1), photons=10000, ntasks=300, nbuf=150, queue=300, copy_level=2), None, 2, True))
+    if ctx.thorough:
+        for j, cells in enumerate(ORDERINGS):
+            cs.append(("tbi-cells-%dx%dx%d" % cells, dict(cells=cells, layout=[(2, 2, 1), (1, 2, 2), (2, 1, 2)][j % 3], diffuse=j % 2 == 0, continuous=j % 3 == 0,
+                                                          trackers=True, photons=5000, ntasks=400, nbuf=200, queue=300, copy_level=j % 3), "SAW", 1 + j % 4, False))
     n_extra = ctx.budget(2, 10)
     for i in range(n_extra):
         c = dict(diffuse=ctx.rng.random() < 0.5, temperature=ctx.rng.random() < 0.3, continuous=ctx.rng.random() < 0.3,
                  trackers=ctx.rng.random() < 0.6, copy_level=ctx.rng.choice([0, 1, 2, 3]),
                  layout=tuple(ctx.rng.choice([1, 2, 4]) for _ in range(3)), same_cell=ctx.rng.random() < 0.3)
+        if ctx.rng.random() < 0.5:
+            c["cells"] = tuple(ctx.rng.choice([2, 3, 4]) for _ in range(3))
         types = "".join(ctx.rng.choice("SBAW") for _ in range(ctx.rng.randint(1, 4)))
-        cs.append(("tbi-random-%d" % i, c, types if c["trackers"] else None, ctx.rng.choice([1, 2, 3, 4])))
+        cs.append(("tbi-random-%d" % i, c, types if c["trackers"] else None, ctx.rng.choice([1, 2, 3, 4]), False))
     return cs
 
 
@@ -557,21 +645,21 @@ def tbi_tracker_yaml(types, c):
     return t
 
 
-SAN_RE = re.compile(r"(ERROR: AddressSanitizer|ERROR: LeakSanitizer|runtime error:|AddressSanitizer:DEADLYSIGNAL|SUMMARY: (Address|UndefinedBehavior|Leak)Sanitizer)")
+SAN_RE = re.compile(r"(ERROR: AddressSanitizer|ERROR: LeakSanitizer|runtime error:|AddressSanitizer:DEADLYSIGNAL|SUMMARY: (Address|UndefinedBehavior|Leak)Sanitizer|== (Invalid|Conditional jump|Use of uninitialised|Mismatched free|Invalid free)|ERROR SUMMARY: [1-9])")
 
 
 def classify_run(res, expect_files):
     """-> (ok, what)"""
     if res["timed_out"]:
-        return False, "did not finish (timeout)"
+        return False, "did not finish (hang or livelock: no end within the time limit)"
+    m = SAN_RE.search(res["log"])
+    if m:
+        return False, "memory checker report: " + res["log"][m.start():m.start() + 300].replace("\n", " | ")
     if res["rc"] != 0:
         sig = ""
         if res["rc"] < 0:
             sig = " (killed by signal %d)" % (-res["rc"])
         return False, "exit status %d%s" % (res["rc"], sig)
-    m = SAN_RE.search(res["log"])
-    if m:
-        return False, "sanitizer report: " + res["log"][m.start():m.start() + 300].replace("\n", " | ")
     for pat in expect_files:
         if not any(re.fullmatch(pat, f) for f in res["files"]):
             return False, "output file %s was not written" % pat
@@ -579,17 +667,51 @@ def classify_run(res, expect_files):
 
 
 def san_summary(log):
-    m = re.search(r"(==\d+==ERROR: \w+Sanitizer:[^\n]*|[^\n]*runtime error:[^\n]*)", log)
-    frames = re.findall(r"#\d+ 0x[0-9a-f]+ in ([^\n]+)", log)[:6]
+    m = re.search(r"(==\d+==ERROR: \w+Sanitizer:[^\n]*|[^\n]*runtime error:[^\n]*|==\d+== (?:Invalid|Conditional|Use of)[^\n]*)", log)
+    frames = re.findall(r"(?:#\d+ 0x[0-9a-f]+ in|==\d+==\s+(?:at|by) 0x[0-9A-F]+:) ([^\n]+)", log)[:6]
     return (m.group(1) if m else "") + " || " + " <- ".join(f.strip()[:120] for f in frames)
 
 
-def whole_runs(ctx, binary, label, env=None, timeout=240):
-    """runs of all modes; a failing run is a VIOLATION with the parameter file as replay"""
-    stats = {"runs": 0, "failed": 0}
-    t_start = time.time()
+def run_plan(ctx):
+    """every whole run of this tier: list of dicts (name, kind, stages [(args, expect)], param, threads, aux, key, san_quick)"""
+    plan = []
+    for (name, c, threads, sq) in rhd_configs(ctx):
+        plan.append(dict(name=name, kind="rhd-radiation" if c.get("radiation") else "rhd", param=rhd_param(c), threads=threads,
+                         stages=[(["--task-based-rhd"], live_expect(c))], san_quick=sq))
+    # recorded finding: a source outside the box (exactly one such configuration, stable key)
+    c = dict(layout=(2, 2, 1), anchor=(0.1, -0.3, 0.7), sides=(1.1, 1.1, 1.1), source="default")
+    plan.append(dict(name="rhd-source-outside-box", kind="finding", param=rhd_param(c), threads=1, stages=[(["--task-based-rhd", "--number-of-steps", "2"], [])],
+                     key=KEY_SOURCE_OUTSIDE, san_quick=False))
+    # recorded finding: PhotonSourceDistribution: None in the RHD mode
+    plan.append(dict(name="rhd-source-distribution-none", kind="finding", param=rhd_param(dict(layout=(1, 1, 1), source="none")), threads=1,
+                     stages=[(["--task-based-rhd"], [r"snap\d+\.hdf5"])], key="run:rhd-null-source-distribution", san_quick=False))
+    # restart: dump at every step, stop after 2 steps, restart and finish
+    for (name, c, threads, sq) in [("restart-plain", dict(layout=(2, 2, 1), cells=(3, 4, 2)), 2, False),
+                                   ("restart-live-mask-turbulence", dict(layout=(2, 2, 2), cells=(4, 2, 3), per=(True, True, True), mask=True, turbulence=True, **LIVE_ALL), 3, True),
+                                   ("restart-radiation", dict(layout=(2, 1, 1), cells=(2, 3, 4), radiation=True, live=True, **SMALL), 1, False)][:ctx.budget(2, 3)]:
+        c = dict(c, restart_interval="0. s", total_time=0.01)
+        plan.append(dict(name=name, kind="restart", param=rhd_param(c), threads=threads, san_quick=sq,
+                         stages=[(["--task-based-rhd", "--number-of-steps", "2"], [r"restart\.dump"]), (["--task-based-rhd", "--restart", "."], live_expect(c))]))
+    plan.append(dict(name="rhd-dry-run", kind="rhd", param=rhd_param(dict(layout=(2, 2, 1), live=True)), threads=1, stages=[(["--task-based-rhd", "--dry-run"], [])], san_quick=False))
+    for (name, c, types, threads, sq) in tbi_configs(ctx):
+        aux = {"trackers.yml": tbi_tracker_yaml(types, c)} if types else None
+        plan.append(dict(name=name, kind="tbi", param=tbi_param(c), threads=threads, aux=aux, stages=[(["--task-based"], [r"snap\d+\.txt"])], san_quick=sq))
+    plan.append(dict(name="tbi-dry-run", kind="tbi", param=tbi_param(dict(diffuse=True)), threads=1, stages=[(["--task-based", "--dry-run"], [])], san_quick=False))
+    # recorded finding: a `type: Multi` tracker followed by another tracker in the same cell
+    c = dict(trackers=True, same_cell=True, copy_level=0)
+    plan.append(dict(name="tbi-multi-tracker-shares-cell", kind="finding", param=tbi_param(c), threads=1, aux={"trackers.yml": tbi_tracker_yaml("MS", c)},
+                     stages=[(["--task-based"], [r"snap\d+\.txt"])], key="run:tracker-multi-shares-cell-double-delete", san_quick=False))
+    return plan
 
+
+def whole_runs(ctx, binary, label, plan, env=None, timeout=60, wrapper=None):
+    """runs the plan on one binary; a failing run (exit status, memory checker report, missing
+    output, no end within the time limit) is a VIOLATION with the parameter file + command as replay.
+    After the first run of a kind that does not end, no further run of that kind is started."""
+    stats = {"runs": 0, "failed": 0, "skipped_after_hang": 0}
+    t_start = time.time()
     more = []
+    hung = set()
 
     def report(name, what, param, cmd, res, aux=None, key=None):
         stats["failed"] += 1
@@ -603,86 +725,44 @@ def whole_runs(ctx, binary, label, env=None, timeout=240):
         tail = res["log"][-1800:]
         # keep the replay file (and its name) the same from run to run
         for pat, sub in ((r"\d\d:\d\d:\d\d", "hh:mm:ss"), (r"/tmp/verif_\w+", "/tmp/verif_X"), (r"\[\w+:\d+\]", "[pid]"), (r"==\d+==", "==pid=="),
-                         (r"0x[0-9a-f]{6,}", "0x.."), (r"\(\+0x[0-9a-f]+\)", "(+0x..)"), (r"\d+(\.\d+)?(e[-+]\d+)?\s?(s|ms|MB|KB|%)\b", "<n>")):
+                         (r"0x[0-9a-fA-F]{6,}", "0x.."), (r"\(\+0x[0-9a-f]+\)", "(+0x..)"), (r"\d+(\.\d+)?(e[-+]\d+)?\s?(s|ms|MB|KB|%)\b", "<n>")):
             tail = re.sub(pat, sub, tail)
-        lines = [l for l in tail.split("\n") if re.search(r"rror|Sanitizer|ignal|free\(\)|corrupt|Assert|abort", l) and "[pid] [" not in l]
+        lines = [l for l in tail.split("\n") if re.search(r"rror|Sanitizer|ignal|free\(\)|corrupt|Assert|abort|Invalid", l) and "[pid] [" not in l]
         rep = {"run": name, "binary": label, "param": param, "cmd": cmd, "aux_files": aux or {}, "error_lines": lines[:4]}
-        if "Sanitizer" in what or "runtime error" in what:
-            rep["sanitizer"] = re.sub(r"0x[0-9a-f]{6,}", "0x..", re.sub(r"==\d+==", "==pid==", san_summary(res["log"])))
+        if SAN_RE.search(res["log"]):
+            rep["memory_checker"] = re.sub(r"0x[0-9a-fA-F]{6,}", "0x..", re.sub(r"==\d+==", "==pid==", san_summary(res["log"])))
         ctx.violation(key or ("run:%s:%s" % (label, name)), "%s [%s binary]: %s; command: %s" % (name, label, what, cmd), rep)
 
-    def one(name, param, args, threads, expect, aux=None, source_outside=False, key=None):
-        res, d = run_binary(binary, param, args, threads, aux=aux, env=env, timeout=timeout)
-        shutil.rmtree(d, ignore_errors=True)
-        stats["runs"] += 1
-        ctx.count()
-        ctx.branch("run-" + name.split("-")[0] + "-" + label)
-        cmd = "CMacIonize --params run.param --threads %d %s --dirty" % (threads, " ".join(args))
-        ok, what = classify_run(res, expect)
-        ctx.distinct(("run", label, name, threads, hashlib.sha256(param.encode()).hexdigest()[:10]), nontrivial=True)
-        if not ok:
-            if source_outside:
-                report(name, what, param, cmd, res, aux, key=KEY_SOURCE_OUTSIDE)
-            else:
-                report(name, what, param, cmd, res, aux, key=key)
-        return ok, res
-
-    # --- task-based RHD
-    for (name, c, threads) in rhd_configs(ctx):
-        expect = [r"snap\d+\.hdf5"]
-        if c.get("live"):
-            for k, pat in (("live_sd", "surface_density_"), ("live_isd", "ionized_surface_density_"), ("live_dpdf", "density_PDF_"), ("live_vpdf", "velocity_PDF_")):
-                if c.get(k, k != "live_isd"):
-                    expect.append(pat + r"\d+\.txt")
-        one(name, rhd_param(c), ["--task-based-rhd"], threads, expect)
-    # --- recorded finding: a source outside the box (coordinator's instruction: exactly one such
-    #     configuration, stable key)
-    c = dict(layout=(2, 2, 1), anchor=(0.1, -0.3, 0.7), sides=(1.1, 1.1, 1.1), source="default")
-    ok, res = one("rhd-source-outside-box", rhd_param(c), ["--task-based-rhd", "--number-of-steps", "2"], 1, [], source_outside=True)
-    ctx.cov["source_outside_box_run"] = "completed without a detected error" if ok else "failed as recorded (%s)" % KEY_SOURCE_OUTSIDE
-    # --- PhotonSourceDistribution: None in the RHD mode (found by this check)
-    c = dict(layout=(1, 1, 1), source="none")
-    one("rhd-source-distribution-none", rhd_param(c), ["--task-based-rhd"], 1, [r"snap\d+\.hdf5"], key="run:rhd-null-source-distribution")
-    # --- restart: dump at every step, stop after 2 steps, restart and finish
-    for (name, c, threads) in [("restart-plain", dict(layout=(2, 2, 1)), 2),
-                               ("restart-live-mask-turbulence", dict(layout=(2, 2, 2), per=(True, True, True), live=True, live_isd=True, mask=True, turbulence=True), 3),
-                               ("restart-radiation", dict(layout=(2, 1, 1), radiation=True), 1)][:ctx.budget(2, 3)]:
-        c = dict(c, restart_interval="0. s", total_time=0.01)
-        param = rhd_param(c)
+    for it in plan:
+        if it["kind"] in hung:
+            stats["skipped_after_hang"] += 1
+            continue
         d = tempfile.mkdtemp(prefix="verif_c12_")
-        res1, _ = run_binary(binary, param, ["--task-based-rhd", "--number-of-steps", "2"], threads, env=env, keepdir=d, timeout=timeout)
-        stats["runs"] += 1
-        ctx.count()
-        ok, what = classify_run(res1, [r"restart\.dump"])
-        cmd1 = "CMacIonize --params run.param --threads %d --task-based-rhd --number-of-steps 2 --dirty" % threads
-        if not ok:
-            report(name + "-stage1", what, param, cmd1, res1)
-        else:
-            res2, _ = run_binary(binary, param, ["--task-based-rhd", "--restart", "."], threads, env=env, keepdir=d, timeout=timeout)
+        cmds = []
+        okall = True
+        for (args, expect) in it["stages"]:
+            res, _ = run_binary(binary, it["param"], args, it["threads"], aux=it.get("aux"), env=env, keepdir=d, timeout=timeout, wrapper=wrapper)
             stats["runs"] += 1
             ctx.count()
-            ctx.branch("run-restart-" + label)
-            ok, what = classify_run(res2, [r"snap\d+\.hdf5"])
-            ctx.distinct(("run", label, name, threads), nontrivial=True)
+            cmds.append("CMacIonize --params run.param --threads %d %s --dirty" % (it["threads"], " ".join(args)))
+            ok, what = classify_run(res, expect)
             if not ok:
-                report(name, what, param, cmd1 + " ; CMacIonize --params run.param --threads %d --task-based-rhd --restart . --dirty" % threads, res2)
+                okall = False
+                if res["timed_out"]:
+                    hung.add(it["kind"])
+                report(it["name"], what, it["param"], " ; ".join(cmds), res, it.get("aux"), key=it.get("key"))
+                break
         shutil.rmtree(d, ignore_errors=True)
-    # --- dry run
-    one("rhd-dry-run", rhd_param(dict(layout=(2, 2, 1), live=True)), ["--task-based-rhd", "--dry-run"], 1, [])
-    # --- task-based photoionization
-    for (name, c, types, threads) in tbi_configs(ctx):
-        aux = {"trackers.yml": tbi_tracker_yaml(types, c)} if types else None
-        one(name, tbi_param(c), ["--task-based"], threads, [r"snap\d+\.txt"], aux=aux)
-    one("tbi-dry-run", tbi_param(dict(diffuse=True)), ["--task-based", "--dry-run"], 1, [])
-    # --- a `type: Multi` tracker followed by another tracker in the same cell (found by this check:
-    #     add_trackers hands the second tracker to the user's MultiTracker, both delete it)
-    c = dict(trackers=True, same_cell=True, copy_level=0)
-    one("tbi-multi-tracker-shares-cell", tbi_param(c), ["--task-based"], 1, [r"snap\d+\.txt"], aux={"trackers.yml": tbi_tracker_yaml("MS", c)},
-        key="run:tracker-multi-shares-cell-double-delete")
+        ctx.branch("run-" + it["kind"] + "-" + label)
+        ctx.distinct(("run", label, it["name"], it["threads"], hashlib.sha256(it["param"].encode()).hexdigest()[:10]), nontrivial=True)
+        if it["name"] == "rhd-source-outside-box":
+            ctx.cov["source_outside_box_run"] = "completed without a detected error" if okall else "failed as recorded (%s)" % KEY_SOURCE_OUTSIDE
     if more:
         ctx.violation("run:%s:more-failing-runs" % label, "%d more runs of the %s binary fail (%s)" % (len(more), label, ", ".join(m["run"] + ": " + m["what"][:60] for m in more)[:1500]),
                       {"runs": more, "binary": label, "param": more[0]["param"], "cmd": more[0]["cmd"], "aux_files": more[0]["aux_files"]})
     stats["wall_s"] = round(time.time() - t_start, 1)
+    if hung:
+        stats["kinds_with_a_hang"] = sorted(hung)
     ctx.cov.setdefault("whole_runs", {})[label] = stats
     return stats
 
@@ -697,12 +777,31 @@ ASAN_ENV = {
 }
 
 
+def private_copy(path):
+    """the build trees are shared and every `cmake --build` relinks the binary (CompilerInfo.cpp is
+    regenerated each time): run a copy that is replaced atomically, so that a relink by another
+    job cannot pull the file away under a running check"""
+    run = path + ".c12run"
+    tmp = "%s.%d.tmp" % (run, os.getpid())
+    shutil.copy2(path, tmp)
+    os.replace(tmp, run)
+    return run
+
+
+def normal_binary():
+    path = vlib.full_binary(targets=("CMacIonize",))
+    with vlib.Lock("cmake"):
+        return private_copy(path)
+
+
 def asan_binary():
     """AddressSanitizer + UBSan build of the whole binary from the current tree (own build
-    directory, incremental: only the first build is expensive)"""
+    directory per repository path, incremental: only the first build is expensive; when no
+    source changed nothing is compiled or linked)"""
     with vlib.Lock("asan"):
         os.makedirs(ASAN_DIR, exist_ok=True)
         t0 = time.time()
+        binary = os.path.join(ASAN_DIR, "rundir", "CMacIonize")
         if os.path.exists(os.path.join(ASAN_DIR, "build.ninja")):
             rc, out = vlib.sh(["cmake", ASAN_DIR])
         else:
@@ -711,10 +810,16 @@ def asan_binary():
                                "-DCMAKE_SHARED_LINKER_FLAGS=-fsanitize=address,undefined"])
         if rc != 0:
             raise RuntimeError("cmake configure of the sanitizer build failed:\n" + out[-3000:])
-        rc, out = vlib.sh(["cmake", "--build", ASAN_DIR, "-j16", "--target", "CMacIonize"])
-        if rc != 0:
-            raise RuntimeError("sanitizer build failed:\n" + out[-6000:])
-        return os.path.join(ASAN_DIR, "rundir", "CMacIonize"), time.time() - t0
+        # the project regenerates CompilerInfo.cpp on every build (and relinks 200 MB): skip the
+        # build when that is all there is to do
+        rc, dry = vlib.sh(["ninja", "-C", ASAN_DIR, "-n", "CMacIonize"])
+        todo = [l for l in dry.split("\n") if "Building CXX object" in l and "CompilerInfo.cpp.o" not in l]
+        if rc != 0 or todo or not os.path.exists(binary) or not os.path.exists(binary + ".c12run"):
+            rc, out = vlib.sh(["cmake", "--build", ASAN_DIR, "-j16", "--target", "CMacIonize"])
+            if rc != 0:
+                raise RuntimeError("sanitizer build failed:\n" + out[-6000:])
+            private_copy(binary)
+        return binary + ".c12run", time.time() - t0
 
 
 def lsan_rhd_leaks(ctx, binary, info):
@@ -794,7 +899,7 @@ def run(ctx):
                                       "never_null_factories": v["never_null"]} for k, v in info["units"].items()}
         ctx.cov["translator"]["regenerated"] = info["changed"]
     ok = info is not None and ctx.obligations("CMacVerif.Props.C12", ["drv_c12"])
-    binary = vlib.full_binary(targets=("CMacIonize",))
+    binary = normal_binary()
     ctx.cov["rule"] = ("life cycle: every option vector of LiveOutputManager (2^5 + defaults + single keys), tracker lists of 0..5 trackers of all types, "
                        "constructor variants of TaskBasedIonizationSimulation (sources / spectra / diffuse field / trackers / zero luminosities, 1..4 threads), the three random photon source "
                        "distributions x {normal, restart} constructor x {output off, on}; distinct = different op line, non-trivial = at least one pointer owned after the constructor. "
@@ -812,15 +917,24 @@ def run(ctx):
                 ctx.broken_obligation("Lean driver drv_c12 does not build", out[-1500:])
         if ok or okd:
             correspondence(ctx, info, ok)
-    stats = whole_runs(ctx, binary, "normal")
-    if ctx.thorough:
-        try:
-            abin, secs = asan_binary()
-            ctx.cov["asan_build_s"] = round(secs, 1)
-            whole_runs(ctx, abin, "asan", env=ASAN_ENV, timeout=600)
-            if info is not None:
-                lsan_rhd_leaks(ctx, abin, info)
-        except RuntimeError as e:
+    plan = run_plan(ctx)
+    whole_runs(ctx, binary, "normal", plan, timeout=60)
+    # memory checker: the ASan/UBSan build of the whole binary (kept incremental in .build; an
+    # up-to-date tree costs seconds).  Quick: the stress subset; thorough: the whole plan.
+    sub = plan if ctx.thorough else [it for it in plan if it["san_quick"]]
+    try:
+        abin, secs = asan_binary()
+        ctx.cov["asan_build_s"] = round(secs, 1)
+        whole_runs(ctx, abin, "asan", sub, env=ASAN_ENV, timeout=75)
+        if ctx.thorough and info is not None:
+            lsan_rhd_leaks(ctx, abin, info)
+    except RuntimeError as e:
+        # no sanitizer binary (it does not build): valgrind memcheck on the normal binary for three
+        # tiny runs instead, and say so
+        ctx.notes.append("sanitizer build failed (%s): valgrind memcheck on the normal binary used instead" % str(e)[:200])
+        if shutil.which("valgrind"):
+            whole_runs(ctx, binary, "valgrind", [it for it in plan if it["san_quick"]][:3], wrapper=["valgrind", "-q", "--error-exitcode=96"], timeout=400)
+        if ctx.thorough:
             ctx.broken_obligation("sanitizer build: %s" % str(e)[:300], str(e))
     # vlib reports theorems / streams that no longer check only when no failing input was found at
     # all; C12 has recorded findings that fail on every run (and would mask them): report them
@@ -842,11 +956,14 @@ def replay(ctx, path):
     print(json.dumps({k: v for k, v in obj.items() if k not in ("param", "log_tail", "aux_files", "detail")}, indent=1)[:3000])
     if "param" in obj:
         label = obj.get("binary", "normal")
+        wrapper = None
         if label == "asan":
             binary, _ = asan_binary()
             env = ASAN_ENV
         else:
-            binary, env = vlib.full_binary(targets=("CMacIonize",)), None
+            binary, env = normal_binary(), None
+            if label == "valgrind":
+                wrapper = ["valgrind", "-q", "--error-exitcode=96"]
         d = tempfile.mkdtemp(prefix="verif_c12_replay_")
         bad = False
         for cmd in obj["cmd"].split(" ; "):
@@ -863,7 +980,7 @@ def replay(ctx, path):
                     skip = 1
                     continue
                 rest.append(a)
-            res, _ = run_binary(binary, obj["param"], rest, th, aux=obj.get("aux_files") or None, env=env, keepdir=d, timeout=600)
+            res, _ = run_binary(binary, obj["param"], rest, th, aux=obj.get("aux_files") or None, env=env, keepdir=d, timeout=600, wrapper=wrapper)
             okk, what = classify_run(res, [])
             print("%s -> rc=%s %s" % (cmd, res["rc"], what))
             print(res["log"][-1200:])
@@ -895,3 +1012,16 @@ MANIFEST = dict(
          "stated parameter-file assumptions (theorem rhdSimulation_null_source_distribution_is_dereferenced shows one is necessary: genuine crash). Whole-run part is a search with replayable parameter files, not a proof.",
     technique="Lean 4 proof (sound per-field abstract interpretation of a small constructor/destructor language, generic theorem + decide on generated descriptions) + allocation-trace differential "
               "against the real classes + whole-run search with exit status and AddressSanitizer/UBSan")
+
+
+if __name__ == "__main__":
+    # python3 tools/props/c12.py --prebuild : build (or refresh) the normal and the sanitizer build of
+    # the whole binary so that the quick tier finds both up to date
+    if "--prebuild" in sys.argv:
+        t0 = time.time()
+        normal_binary()
+        t1 = time.time()
+        _, secs = asan_binary()
+        print("C12 prebuild: normal binary %.0f s, ASan/UBSan binary %.0f s (%s)" % (t1 - t0, secs, ASAN_DIR))
+    else:
+        print("usage: python3 tools/props/c12.py --prebuild")
